@@ -70,8 +70,7 @@ def r3(c):
     inc = one(b.calls(TC + '::increment'), 'increment')
     rs = b.calls(TC + '::reset')
     def is_err(o):
-        s = q.sem(b, o)
-        return 'err' in q.chain_names(b, o) or (s.kind == 'call' and s.cs.is_(EXEC))
+        return q.is_error_of(b, o, EXEC)
     def is_to(o):
         av = q.agg_variant_of(b, o)
         return av == (RE, 'ResponseTimeout')
@@ -84,7 +83,7 @@ def r3(c):
     for cs in ex:
         ok_edges += q.outcomes(b, cs).get('Ok', [])
     # result is a phi of two awaited calls: use the match on `result`
-    res_sw = [(e, v) for e, v, info in b.variant_edges('core::result::Result') if 'result' in q.chain_names(b, info['place']) or q.sem(b, info['place']).kind in ('call',) and q.sem(b, info['place']).cs in ex]
+    res_sw = [(e, v) for e, v, info in b.variant_edges('core::result::Result') if q.is_result_of(b, info['place'], EXEC)]
     ok_e = [e for e, v in res_sw if v == 'Ok']
     err_e = [e for e, v in res_sw if v == 'Err']
     on_ok = [r for r in rs if q.dominated_by_any(b, ok_e, r.node)]
